@@ -288,6 +288,15 @@ func (s *Server) Run(addr string, opt ...Option) error {
 					return
 				}
 			}
+			select {
+			case <-s.shutdownCtx.Done():
+				// the server began to stop while the conn's timeouts were being
+				// set: they may have replaced the deadlines which were meant to
+				// wake up this conn, so set those again
+				_ = c.SetReadDeadline(time.Now())
+				_ = c.SetWriteDeadline(time.Now().Add(shutdownWriteGrace))
+			default:
+			}
 			if err := conn.serveRequests(); err != nil {
 				s.logger.Error("error handling conn", "op", op, "conn", localConnID, "err", err.Error())
 			}
